@@ -92,6 +92,14 @@ SLICES = {
     'constants-internal': (('consts', 'internal', 'constinternal'), X.tf_constants(True), X.need(ap_extconsts, 'const-internal'), 1),
     'constants-print': (('consts', 'printrefs'), X.tf_constants(True), X.need(ap_extconsts, 'const-in-print'), 1),
     'constants-all': (('consts', 'localconst', 'internal'), X.tf_constants(False), ap_consts, 1),
+    # Fortran is case-insensitive: same constructs as the base slices, every identifier occurrence in random case
+    'marked-casemix': (BASE + ('modsubs', 'marked', 'kwargs'), X.tf_marked(), X.need(ap_marked, 'local-clash'), 3, X.casemix_post()),
+    'marked-casemix-arraydummy': (BASE + ('modsubs', 'marked'), X.tf_marked(), X.need(ap_marked, 'casemix-array-dummy'), 1, X.casemix_post(arraydummies=True)),
+    'internal-casemix': (BASE + ('internal', 'modsubs'), X.tf_internal, X.need(ap_intsub, 'local-clash'), 3, X.casemix_post()),
+    'functions-casemix': (BASE + ('functions', 'elemental'), X.tf_functions(), ap_functions, 2, X.casemix_post()),
+    'stmtfunc-casemix': (('stmtfunc', 'consts', 'select'), X.tf_stmtfunc, ap_stmtfunc, 1, X.casemix_post()),
+    'constants-casemix': (('consts', 'localconst', 'internal', 'select'), X.tf_constants(True), ap_extconsts, 1, X.casemix_post()),
+    'xform-casemix': (('modsubs', 'marked', 'functions', 'elemental'), X.tf_transformation(remove_dead_code=False), ap_any, 2, X.casemix_post()),
     'xform-default': (('modsubs', 'marked', 'functions', 'elemental', 'optional'), X.tf_transformation(), ap_any, 2),
     'xform-nodce': (('modsubs', 'marked', 'functions', 'elemental'), X.tf_transformation(remove_dead_code=False), ap_any, 2),
     'xform-all': (('modsubs', 'marked', 'stmtfunc', 'consts', 'internal'),
